@@ -8,7 +8,7 @@ L1:   in-process (harness bin c19): is_arithmetic, parse_line's arithmetic short
       AND against an independent exact reference evaluator written here (the property's oracle).
 L2:   the real binary: `cicada -c '<expr>'` and `echo $(<expr>)`.
 """
-import itertools, json, math, os, re, shutil, subprocess, tempfile
+import itertools, json, math, os, re, shutil, struct, subprocess, tempfile
 import common as C
 
 EXTRACT = ["C19"]
@@ -230,6 +230,24 @@ def fmt_f64(x):
     return s
 
 
+def shows_f64(printed, x):
+    """Does `printed` denote exactly the double x the way Rust's Display writes doubles (no exponent, reads back to the same
+    double)?  The digit string itself is NOT compared: where the shortest round-trip decimal is not unique (the exact value
+    lies half-way between two 17-digit decimals, e.g. 0.5 ^ 25) Rust and Python's repr pick different last digits, and both
+    denote the same double.  (False alarm of the first version of this layer, met in a thorough run: 0.5 ^25.)"""
+    if x != x:
+        return printed == "NaN"
+    if x in (float("inf"), float("-inf")):
+        return printed == ("inf" if x > 0 else "-inf")
+    if not re.fullmatch(r"-?[0-9]+(\.[0-9]+)?", printed):
+        return False
+    try:
+        y = float(printed)
+    except ValueError:
+        return False
+    return struct.pack(">d", y) == struct.pack(">d", x) and len(printed.lstrip("-").replace(".", "").strip("0")) <= 17
+
+
 class Inexact(Exception):
     pass
 
@@ -425,8 +443,9 @@ def run(ctx, res):
                 oracle_ok, why = False, "unreadable result"
             elif flt:
                 try:
-                    exp = fmt_f64(ref_float(t))
-                    if val != exp:
+                    xv = ref_float(t)
+                    exp = fmt_f64(xv)
+                    if val != exp and not shows_f64(val, xv):
                         oracle_ok, why = False, "IEEE double evaluation gives %s" % exp
                     refv = exp
                 except Inexact:
@@ -612,16 +631,19 @@ def run(ctx, res):
                                 note="float mode: the double eval_float returns differs from the fold of the IEEE "
                                      "operations over the Pratt tree (run_calculator_f of the model)")
                         continue
+                    xbits = None
                     if a_ == "f nan":
                         shown = "NaN"
                     elif re.fullmatch(r"f [0-9a-f]{16}", a_):
-                        shown = fmt_f64(struct.unpack(">d", bytes.fromhex(a_[2:]))[0])
+                        xbits = struct.unpack(">d", bytes.fromhex(a_[2:]))[0]
+                        shown = fmt_f64(xbits)
                     else:
                         violate(kind="correspondence", layer="L1", function="run_calculator_f", input=s_, model=a_, impl=b_,
                                 profile=pname, failing_input=False, note="a float-mode line without a double as its model value")
                         continue
                     want = 'ok "%s"' % C.enc(shown)
-                    if fl_impl[s_] != want:
+                    got_ = fl_impl[s_]
+                    if got_ != want and not (xbits is not None and got_.startswith('ok "') and shows_f64(C.dec(got_[4:-1]), xbits)):
                         violate(kind="oracle" if is_crash(fl_impl[s_]) else "correspondence", layer="L1",
                                 function="core::run_calculator (float mode)", input=s_, model=a_, expected=want,
                                 impl=fl_impl[s_], profile=pname, failing_input=is_crash(fl_impl[s_]),
